@@ -32,6 +32,8 @@ type dtRun struct {
 	thorough bool
 	inScn    int
 	scnKey   string
+	prevB    []byte // what Bytes returned for the value before (not copied) and what it contained then
+	prevInts []int
 	fixKey   string // one scenario group whatever the kind of event (everyDay)
 }
 
@@ -159,7 +161,7 @@ func safeGoValue(t asetypes.DataType, b []byte) (v interface{}, e string) {
 func (r *dtRun) rt(t asetypes.DataType, v interface{}, n int) {
 	r.scn("rt-" + t.String())
 	uni := t == asetypes.UNITEXT
-	ev := Ev{"ev": "RT", "t": t.String(), "n": n, "v": canon(v, uni), "b": []int{}, "v2": map[string]interface{}{"k": "other", "s": "none"}, "err": ""}
+	ev := Ev{"ev": "RT", "t": t.String(), "n": n, "v": canon(v, uni), "b": []int{}, "v2": map[string]interface{}{"k": "other", "s": "none"}, "err": "", "stable": true}
 	b, e := safeBytes(t, v, int64(n))
 	if e != "" {
 		ev["err"] = "Bytes: " + e
@@ -167,6 +169,17 @@ func (r *dtRun) rt(t asetypes.DataType, v interface{}, n int) {
 		return
 	}
 	ev["b"] = ints(b)
+	// the bytes of the value encoded before this one are still what they were (a caller keeps them until
+	// the whole package is written)
+	ev["stable"] = true
+	if r.prevB != nil && len(r.prevB) == len(r.prevInts) {
+		for i := range r.prevB {
+			if int(r.prevB[i]) != r.prevInts[i] {
+				ev["stable"] = false
+			}
+		}
+	}
+	r.prevB, r.prevInts = b, ints(b)
 	v2, e := safeGoValue(t, append([]byte(nil), b...))
 	if e != "" {
 		ev["err"] = "GoValue: " + e
